@@ -627,6 +627,18 @@ func (e *Engine) choose(conds []*smt.Term, exhaustive bool) int {
 				e.lastModelPC = len(e.pc)
 			}
 		case smt.Unknown:
+			// retry with the full timeout and the portfolio before giving up
+			r2, m2 := e.sol.Check(e.pc, c, e.ndTerms, true)
+			if r2 == smt.Unsat {
+				continue
+			}
+			if r2 == smt.Sat {
+				feas = append(feas, i)
+				if m2 != nil {
+					e.lastModel = m2
+				}
+				continue
+			}
 			// keep the branch: exploring a possibly infeasible path is sound for "holds"
 			// verdicts (its obligations are still discharged) and a counterexample found on
 			// it is only reported after native replay
